@@ -132,6 +132,9 @@ fn grammars() -> Vec<G14> {
         mk("lazy-greedy", "start: hd \"x\" | TEXT\nTEXT: /[a-c<]*/\nhd[lazy]: TEXT \"<f\""),
         mk("ignore", "start: \"a\" \"b\"+ \"c\"\n%ignore / +/"),
         mk("and-not", "start: T \"z\"\nT: /[abc]+/ & ~/.*bb.*/"),
+        // sibling histories of equal length that differ in acceptance (same row, same lexer state)
+        mk("accept-diverge", "start: \"a\" \"b\"? | \"c\" \"b\""),
+        mk("accept-diverge-x", "start: \"x\" (\"a\" \"b\"? | \"c\" \"b\")"),
         G14 { name: "json", g: GrammarSpec::Json(json!({"type": "object", "properties": {"a": {"enum": ["x", "xy"]}}, "required": ["a"], "additionalProperties": false})), vocab: {
             let mut v = vocab::bytes_vocab(b"{}\":axy, ");
             v.tokens.pop();
